@@ -18,13 +18,13 @@ theorem C16_model_verdict_ok (ops : List Op) : verdict ops (run ops) = "ok" := b
   rw [check_runFrom ops State.init Ledger.init rel_init]
 
 /-- The judge is not vacuous: it accepts the model's trace of a start, a reload and a shutdown signal … -/
-example : verdict [.start ⟨[⟨.file, 1, false⟩], .none, false, false⟩, .restart ⟨[⟨.file, 1, false⟩], .none, false, false⟩, .signal 2]
-    (run [.start ⟨[⟨.file, 1, false⟩], .none, false, false⟩, .restart ⟨[⟨.file, 1, false⟩], .none, false, false⟩, .signal 2]) = "ok" :=
+example : verdict [.start ⟨[⟨.file, 1, false, false⟩], .none, false, false⟩, .restart ⟨[⟨.file, 1, false, false⟩], .none, false, false⟩, .signal 2]
+    (run [.start ⟨[⟨.file, 1, false, false⟩], .none, false, false⟩, .restart ⟨[⟨.file, 1, false, false⟩], .none, false, false⟩, .signal 2]) = "ok" :=
   C16_model_verdict_ok _
 
 /-- … and rejects a reload whose old instance is stopped before the new one serves, -/
-example : segLaw { Ledger.init with next := 2, live := [⟨1, 1, ⟨[⟨.file, 1, false⟩], .none, false, false⟩⟩] }
-    (.restart ⟨[⟨.file, 1, false⟩], .none, false, false⟩)
+example : segLaw { Ledger.init with next := 2, live := [⟨1, 1, ⟨[⟨.file, 1, false, false⟩], .none, false, false⟩⟩] }
+    (.restart ⟨[⟨.file, 1, false, false⟩], .none, false, false⟩)
     ⟨.ok, [.cb .rs 1 0, .cb .rs 1 1, .cb .su 2 0, .cb .su 2 1, .stop 1 0, .inherit 2 0, .serve 2 0, .cb .sd 1 0, .cb .sd 1 1]⟩
     = some "restart-order" := by decide
 
@@ -53,7 +53,7 @@ theorem C16_restart_order (s : State) (o : Inst) (rest : List Inst) (c : Cfg) (h
   simp only [if_true, List.nil_append] at he
   simp [step, hi, runCbs, hr, hl, he]
 
-example : (load 2 ⟨[⟨.file, 1, false⟩], .none, false, false⟩ true [1]).2 = true := by decide
+example : (load 2 ⟨[⟨.file, 1, false, false⟩], .none, false, false⟩ true [1]).2 = true := by decide
 
 /-- A failed reload (the OnRestart callback failed, or the new configuration failed at any stage up to and including
 a failing Listen), in any state reachable by any history, leaves the process state exactly as it was — same instances,
@@ -121,7 +121,7 @@ theorem C16_startup_before_serve (s : State) (op : Op) (g k : Nat) (pre post : L
   ⟨(startup_before_serve h).1, (startup_before_serve h).2,
    step_su_sv (by rw [h]; simp) (Or.inr ⟨g, k, rfl⟩)⟩
 
-example : ∃ pre post, (step State.init (.start ⟨[⟨.file, 1, false⟩], .none, false, false⟩)).2.events
+example : ∃ pre post, (step State.init (.start ⟨[⟨.file, 1, false, false⟩], .none, false, false⟩)).2.events
     = pre ++ .serve 1 0 :: post := ⟨[.cb .fs 1 0, .cb .fs 1 1, .cb .su 1 0, .cb .su 1 1, .listen 1 0], [], by decide⟩
 
 /-- Final-shutdown callbacks run only when the process shuts down: in any state, an operation whose segment contains one
@@ -147,5 +147,19 @@ theorem C16_shutdown_once_any_signals (ops : List Op) :
 least the number of Serve calls that stopping the live instances of the lineage will end. -/
 theorem C16_wait_group_never_negative (ops : List Op) (l : Nat) : 0 ≤ (stateAfter State.init ops).wg l :=
   Int.le_trans (liveG_nonneg _ l) (wgCovers_after ops State.init wgCovers_init l)
+
+/-- **The signal handlers** (`sigtrap.go`, `sigtrap_posix.go`; stream `c16.signal` sends real signals to a child process).
+After any history without a shutdown signal, for any burst of signals: SIGHUPs are ignored; the first other signal decides —
+SIGTERM runs every live instance's OnShutdown then OnFinalShutdown callbacks exactly once and then stops every graceful
+server exactly once, SIGINT runs the callbacks only, SIGQUIT runs nothing — and the process exits; the model of the handlers
+(`sigRun`) satisfies the law the judge applies to what the child process really did. -/
+theorem C16_signal_path_model_ok (ops : List Op) (hns : ∀ op ∈ ops, ∀ n, op ≠ .signal n) (sigs : List Sig) :
+    signalPathLaw (stateAfter State.init ops).insts sigs (sigRun (stateAfter State.init ops) sigs).1
+      (sigRun (stateAfter State.init ops) sigs).2.isSome = none :=
+  sigRun_law (rel_reach ops) (once_false_after ops State.init rfl hns) sigs
+
+/-- the law rejects a SIGTERM that stops the servers before the shutdown callbacks ran -/
+example : signalPathLaw [⟨1, 1, ⟨[⟨.file, 1, false, false⟩], .none, false, false⟩⟩] [.term]
+    [.stop 1 0, .cb .sd 1 0, .cb .sd 1 1, .cb .fd 1 0, .cb .fd 1 1] true = some "shutdown-once" := by decide
 
 end Casket.Props.C16
